@@ -96,8 +96,9 @@ def ws2dwcv(y, nodata, llas, robust, out, lopt):
                 r_used = r_arr[w_temp != 0]
                 mad = np.median(np.abs(r_used - np.median(r_used)))
 
-                # more than half of the residuals equal: no scale to reweight with
-                if mad > 0:
+                # more than half of the residuals equal (up to float noise):
+                # no scale to reweight with
+                if mad > 1e-6:
                     u_arr = r_arr / (1.4826 * mad * np.sqrt(1 - gamma.sum() / n))
 
                     r_new = (1 - (u_arr / 4.685) ** 2) ** 2
